@@ -314,6 +314,18 @@ def _counter(lp):
     return ps[0], ps[0] - upd[0]
 
 
+def _tested_counter(lp):
+    """the one loop-carried local a loop test reads -> (P, decrement per iteration, whether the test is `P > 0`)"""
+    if not _rat(lp.test):
+        return None, None, False
+    ps = _lv_in(lp.test, lp.frame)
+    if len(ps) != 1:
+        return None, None, False
+    upd = [v for p, v in lp.carry if p.equals(ps[0])]
+    dec = ps[0] - upd[0] if len(upd) == 1 and upd[0] is not None and not is_unknown(upd[0]) and not isinstance(upd[0], tuple) else None
+    return ps[0], dec, C.same(lp.test, F.fn("ge0", ps[0] - 1), whole_values=False)
+
+
 def _rat(v):
     return v is not None and not is_unknown(v) and not isinstance(v, tuple)
 
@@ -721,24 +733,54 @@ def r3_sibling_decoders(ctx):
             if lp is None:
                 ctx.error(f"{reader}: {kind} string loop", rf)
                 continue
-            P, dec = _counter(lp)
+            P, dec, positive = _tested_counter(lp)
             puts = _stores_in(w, lp)
             if P is None or len(puts) != 1:
                 ctx.error(f"{reader}: words-left counter / store call of the string loop", lp.node, {"counter": repr(P), "stores": len(puts)})
                 continue
+            ctx.check(positive, f"{reader}: strings are read exactly while words of the column remain (words left > 0)", lp.node,
+                      None if positive else {"loop test": repr(C.norm(lp.test, whole_values=False))})
             r = _store_arg(ctx, w, puts[0], "row")
+            site = None
             if binary:
                 sites = [c for c in w.cutovers if c["fr"] is lp.fr]
-                L = sites[0]["count_ff"] if len(sites) == 1 else None
+                site = sites[0] if len(sites) == 1 else None
+                L = site["count_ff"] if site is not None else None
             else:
                 L = _store_arg(ctx, w, puts[0], "count")
-            wper = _divisor(L)
-            if wper is None:
-                ctx.error(f"{reader}: the number of values of a string is not (words announced) // (words per value)", lp.node, repr(L))
-                continue
-            res.append(dict(w=w, lp=lp, P=P, dec=dec, r=r, L=L, wper=wper, kind=kind, binary=binary, put=puts[0], reader=reader,
-                            label=f"op4 {'binary' if binary else 'ascii'} {kind}"))
+            # words per value as the format defines them: ASCII 1 for the odd (single precision) matrix types and 2 otherwise; binary
+            # bytes per value / word size (per precision and key width, see `expected` below)
+            mtype = _reported_type(w)
+            wper = C.phi(F.fn("odd", mtype), F.const(1), F.const(2)) if not binary and _rat(mtype) else None
+            res.append(dict(w=w, lp=lp, P=P, dec=dec, r=r, L=L, wper=wper, wdiv=_divisor(L), kind=kind, binary=binary, put=puts[0], reader=reader,
+                            site=site, label=f"op4 {'binary' if binary else 'ascii'} {kind}"))
     perlines = []
+    tb4 = T.tables(ctx)["op4"]
+
+    def values_ok(d, L, words):
+        """L == (words - 1) // words-per-value: ASCII symbolically, binary for every precision and key width (words per value = bytes per
+        value / word size)"""
+        if not _rat(L) or not _rat(words):
+            return False
+        if not d["binary"]:
+            return d["wper"] is not None and C.same(L, C.floordiv(words - 1, d["wper"]), whole_values=False)
+        site = d["site"]
+        if site is None or C.norm(site["count_ff"]).is_zero():
+            return False
+        try:
+            for _path, (L_, w_, b_) in C.leaves([L, words, site["nbytes"] / site["count_ff"]]):
+                for bits in (32, 64):
+                    bpv = T.numval(C.norm(b_), tb4[bits])
+                    if bpv is None or not bpv.is_const() or (bpv.const_value() / (bits // 8)).denominator != 1:
+                        return False
+                    wexp = F.const(bpv.const_value() / (bits // 8))
+                    got = C.refloor(T.numval(C.norm(L_, whole_values=False), tb4[bits]))
+                    want = C.floordiv(C.refloor(T.numval(C.norm(w_, whole_values=False), tb4[bits])) - 1, wexp)
+                    if not C.same(got, want, whole_values=False):
+                        return False
+        except Unsupported:
+            return False
+        return True
     for d in res:
         lp, dec, r, L, wper, reader = d["lp"], d["dec"], d["r"], d["L"], d["wper"], d["reader"]
         if d["kind"] == "nonbigmat":
@@ -753,7 +795,7 @@ def r3_sibling_decoders(ctx):
                 ctx.error(f"{reader}: the packed header word of a string", lp.node)
                 continue
             hi, lo = F.fn("hi16", W), F.fn("lo16", W)
-            ok = _rat(L) and C.same(L, C.floordiv(hi - 1, wper), whole_values=False)
+            ok = values_ok(d, L, hi)
             ctx.check(ok, f"{reader}: values per string = ((IS >> 16) - 1) // words-per-value", lp.node, None if ok else repr(L))
             ok = _rat(dec) and C.same(dec, hi)
             ctx.check(ok, f"{reader}: words consumed per string = IS >> 16 (L + 1)", lp.node, None if ok else repr(dec))
@@ -774,7 +816,7 @@ def r3_sibling_decoders(ctx):
             if f0 is None:
                 continue
             W0 = dec - 1
-            ok = _rat(L) and C.same(L, C.floordiv(W0 - 1, wper), whole_values=False)
+            ok = values_ok(d, L, W0)
             ctx.check(ok, f"{reader}: bigmat values per string = (L_header - 1) // words-per-value", lp.node, None if ok else repr(L))
         # the data read for the string is what the header announces
         if d["binary"]:
@@ -832,17 +874,16 @@ def r3_sibling_decoders(ctx):
     arow = [d for d in res if not d["binary"]]
     if arow:
         wl = arow[0]["w"]
-        mtype = _reported_type(wl)
-        ok = _rat(mtype) and all(C.same(d["wper"], C.phi(F.fn("odd", mtype), F.const(1), F.const(2))) for d in arow)
+        ok = all(d["wper"] is not None and d["wdiv"] is not None and C.same(d["wdiv"], d["wper"]) for d in arow)
         ctx.check(ok, "_loadop4_ascii: a value takes 1 word for the odd matrix types (single precision) and 2 words otherwise, the type being the "
-                      "one reported for the matrix", wl.fn, None if ok else repr(arow[0]["wper"]))
+                      "one reported for the matrix", wl.fn, None if ok else repr(arow[0]["wdiv"]))
     # words per value: the ASCII skipper and the ASCII loader derive it from the matrix type identically (the skipper walked in the case
     # that takes its nonbigmat path, with its parameters standing for what the loader passes)
     cs = _ascii_cases(ctx)
     nb = [d for d in arow if d["kind"] == "nonbigmat"]
     if cs["ok"] and nb:
         got = False
-        want = cs["ren_l"](nb[0]["wper"])
+        want = cs["ren_l"](nb[0]["wper"]) if nb[0]["wper"] is not None else F.sym("?")
         for _asg, _wl, ws in cs["cases"]:
             for lp in C.loops_in(ws.top.items):
                 P, dec = _counter(lp)
@@ -941,9 +982,10 @@ def _same_tree(ctx, a, b, text, where, whole_values=True, detail=None):
     unknown to the evaluator) the difference cannot be judged: analysis error, not violation"""
     why = []
     ok = C.same_items(a, b, whole_values=whole_values, why=why)
-    if not ok and _decoders(a) != _decoders(b):
-        ctx.error(text + " [the two sides decode what they read through different functions: " +
-                  ", ".join(sorted(_decoders(a) ^ _decoders(b))) + "]", where, {"first difference": why[:1]})
+    odd_ones = sorted(n for n in _decoders(a) ^ _decoders(b) if n not in MODELLED_DECODERS and n != "call:int" and not n.startswith("call:."))
+    if not ok and odd_ones:
+        ctx.error(text + " [one side decodes what it reads through a function the other does not use and the evaluator does not model: " +
+                  ", ".join(odd_ones) + "]", where, {"first difference": why[:1]})
         return False
     if not ok and (_unjudgeable(a) or _unjudgeable(b)):
         ctx.error(text + f" [cannot be judged: {_unjudgeable(a) or _unjudgeable(b)}]", where, {"first difference": why[:1]})
